@@ -316,11 +316,15 @@ class Exe:
         self.d = tempfile.mkdtemp(prefix="psyverif-c09-")
         with open(os.path.join(self.d, "p.f90"), "w") as f:
             f.write(src)
-        p = subprocess.run(["gfortran", "-fimplicit-none", "-O0", "-ftrapv", "-fcheck=bounds"] + list(flags) + ["p.f90", "-o", "p.x"],
-                           cwd=self.d, stdout=subprocess.PIPE, stderr=subprocess.STDOUT, text=True, timeout=120)
+        try:
+            p = subprocess.run(["gfortran", "-fimplicit-none", "-O0", "-ftrapv", "-fcheck=bounds"] + list(flags) + ["p.f90", "-o", "p.x"],
+                               cwd=self.d, stdout=subprocess.PIPE, stderr=subprocess.STDOUT, text=True, timeout=600)
+        except subprocess.TimeoutExpired:
+            shutil.rmtree(self.d, ignore_errors=True)
+            raise common.Infra("gfortran compilation timed out (machine overloaded?)")
         self.ok, self.log = p.returncode == 0, p.stdout
 
-    def run(self, env=None, timeout=30):
+    def run(self, env=None, timeout=120):
         e = dict(os.environ)
         e.update(env or {})
         try:
